@@ -678,6 +678,9 @@ func (fv *FuncVerifier) verifyUnit(lit *ast.FuncLit) {
 	for _, cl := range fi.Contr.Get("requires", 0, fv.curLit) {
 		st.Assume(fv.evalClause(st, cl, pos, nil, nil))
 	}
+	for _, cl := range fi.Contr.Get("assume", 0, fv.curLit) {
+		st.Assume(fv.evalClause(st, cl, pos, nil, nil))
+	}
 	// vacuity: the preconditions must be satisfiable
 	if len(fi.Contr.Get("requires", 0, fv.curLit)) > 0 {
 		fv.obls = append(fv.obls, &Obligation{Func: fi.Key, Class: "V", Kind: "requires-sat", Site: pos, Pos: fv.pos(pos),
@@ -760,7 +763,16 @@ func (fv *FuncVerifier) verifyUnit(lit *ast.FuncLit) {
 			fv.note("abstracted: break/continue outside loop in %s", fi.Key)
 		}
 	}
-	// exit reachable (vacuity of the whole contract): at least one return path is feasible
+	if lit == nil && fi.Contr.Has("functional", 0) {
+		status := "unsat"
+		desc := "the result is a deterministic function of arguments and heap: no havoc, no unknown call, no order-dependent iteration met"
+		if len(fv.nondet) > 0 {
+			status = "failed"
+			desc = "function is declared functional but its execution met nondeterminism: " + strings.Join(fv.nondet, "; ")
+		}
+		fv.obls = append(fv.obls, &Obligation{Func: fi.Key, Class: "R", Kind: "functional", Site: pos, Pos: fv.pos(pos), Goal: True,
+			Desc: desc, consts: fv.consts, Name: fi.Key + "#R.functional", Status: status, Solver: "govc-determinism-analysis"})
+	}
 	_ = retIdx
 }
 
